@@ -36,7 +36,8 @@ def spawn_shape(b, name='spawn', cls=SPAWNBASE, extra=None, loop=False, defaults
         before=b.any('before0'), after=b.any('after0'), match=b.any('match0'), match_index=b.any('match_index0'),
     )
     if loop:
-        fields.update(maxread=b.int('maxread'),
+        fields.update(flag_eof=b.bool('flag_eof'),       # set by the transports once end of file was seen
+                      maxread=b.int('maxread'),
                       delayafterread=b.opt('delayafterread', lambda: b.real('delayafterread')))
     if defaults:
         fields.update(searchwindowsize=b.opt('spawn.searchwindowsize', lambda: b.int('spawn.searchwindowsize')),
